@@ -83,6 +83,9 @@ func (t *Tape) Choose(n int, label string) int {
 		return 0
 	}
 	s, name := t.stream()
+	if t.n > 2000000 {
+		panic("tape budget exceeded: a generator loops without making progress")
+	}
 	var v uint32
 	if s.rng != nil {
 		v = uint32(s.rng.IntN(n))
